@@ -1119,7 +1119,7 @@ def bucket_claim(ctx):
                 s3.buckets.add(bucket)
             if state == 'n':
                 s3.objects[f'/{bucket}/zz-other'] = b'x'
-            store = S3ChunkStore(s3.url, timeout=(2.0, 2.0), retries=0)
+            store = S3ChunkStore(s3.url, timeout=(20.0, 20.0), retries=0)
             seen = []
             orig = store.request
 
